@@ -234,6 +234,13 @@ def install(ai: AbsInt, ctx, clip_model=True):
         vals = args[1:]
         if len(codes) != len(vals):
             raise AbsRaise('struct.error', node, implicit=True)
+        if order == '@' and all(isinstance(v, int) and not isinstance(v, bool) for v in vals):
+            # constant folding of a pure stdlib function on constants
+            import struct as _struct
+            try:
+                return _struct.pack(fmt, *vals)
+            except _struct.error:
+                raise AbsRaise('struct.error', node)
         return Packed([Field(c, v, order) for c, v in zip(codes, vals)])
 
     def s_unpack(interp, args, kwargs, node):
@@ -241,6 +248,12 @@ def install(ai: AbsInt, ctx, clip_model=True):
         if not isinstance(fmt, str):
             return Opaque('struct.unpack format')
         order, codes = parse_fmt(fmt)
+        if isinstance(data, (bytes, bytearray)):
+            import struct as _struct
+            try:
+                return _struct.unpack(fmt, data)
+            except _struct.error:
+                raise AbsRaise('struct.error', node)
         items = data.items if isinstance(data, AList) else None
         if items is None:
             return Opaque('unpack of non-bytes')
